@@ -121,6 +121,7 @@ def gen_case(rng, names=None, symmetric=False):
 
 
 def nontriv(ctx, case, base):
+    ctx.evaluations += 1          # called once per permuted / renamed / re-seeded run: an implementation run of its own
     s = summary(base)
     if s[0] == 'err' or (s[0] == 'sel' and s[2]) or len(evalreg.candidates_of(evalreg.registry()[case['evaluator']]['vtype'], case['profile'])) > 3 \
             or (s[0] == 'dist' and any(isinstance(k, tuple) for k, _ in s[1])):
